@@ -233,6 +233,8 @@ fn encode_wal_entry(
             // (key expires slightly earlier than intended). This is a known, accepted
             // trade-off: TTL precision is best-effort, not a hard guarantee.
             let expire_at_secs = if let Some(ttl) = ttl_secs {
+                // same clamp as TtlLease::register: an overflowing `now + ttl` would panic
+                let ttl = &(*ttl).min(crate::storage::MAX_TTL_SECS);
                 let expire_at = std::time::SystemTime::now() + std::time::Duration::from_secs(*ttl);
                 #[cfg(d_engine_verif)]
                 let expire_at =
